@@ -136,7 +136,22 @@ def gen_mibdump(rng, tier):
         scn['faults'] = [{'op': 0, 'site': rng.choice(['mkstemp', 'os.write', 'os.rename', 'os.close']), 'nth': rng.choice([0, 0, 1, 2, 3]),
                           'action': 'errno', 'arg': rng.choice(['ENOSPC', 'EIO', 'EACCES'])}]
     leaves = [m for m in names if not any(m in specs[o]['imports'] or specs[o].get('defval_dep') == m for o in names if o != m)]
-    if rng.random() < 0.1 and len(names) >= 2 and leaves and not scn.get('usage'):
+    shape2 = rng.random() < 0.07 and len(names) >= 2 and not scn.get('usage')
+    if shape2:
+        # every module can be fetched and parsed, one fails only inside the code generator (errors not ignored, nobody to
+        # borrow from, nothing else goes wrong): whatever the run had generated by then is not part of the outcome
+        bad = rng.choice(names)
+        for m in names:
+            specs[m]['variant'] = 'ok'
+            specs[m].pop('oiddefval', None)
+            if fnames[m] is None:
+                fnames[m] = m
+        specs[bad]['variant'] = rng.choice(['badref', 'oidcycle', 'oidtype', 'latefail'])
+        scn['flags'] = [f for f in flags if f not in ('--ignore-errors', '--dry-run', '--no-mib-writes', '--no-dependencies')]
+        scn['requested'] = rng.choice([sorted(names), sorted(names, reverse=True), [bad], [m for m in names if m != bad][:1] + [bad]])
+        for k_ in ('rate', 'stubs', 'borrow', 'faults', 'blockdir'):
+            scn.pop(k_, None)
+    elif rng.random() < 0.1 and len(names) >= 2 and leaves and not scn.get('usage'):
         # the shape in which report, exit code and directory are easiest to get out of step: one module (that nobody
         # imports) is broken and replaced by a borrowed copy, everything else is healthy and gets compiled, and one
         # store operation of the run fails (errors not ignored)
@@ -314,6 +329,15 @@ def run_mibdump(scn):
                 stray = [k for k in after if os.path.basename(k).startswith('simtmp')]
                 if stray:
                     V('C20.3-files', 'temporary files left in the destination: %s' % stray, what='temp-left')
+                # ... and a store operation that failed leaves nothing under the module's name: what is new in the
+                # destination are the modules reported created or borrowed
+                if code in (0, 79):
+                    made = set(m + sfx for m, s in R.items() if str(s) in ('compiled', 'borrowed'))
+                    changed = set(k for k in after if after[k] != before.get(k) and after[k][0] == 'f' and not k.startswith('__pycache__') and not os.path.basename(k).startswith('index')
+                                  and k not in stray)
+                    if changed - made:
+                        V('C20.3-files', 'files %s are new or changed although their modules are reported %s (faults %s)' % (
+                            sorted(changed - made), sorted(set(str(R.get(k[:-len(sfx)] if sfx else k)) for k in changed - made)), sorted(w.fired)), what='unreported-file-under-fault')
         statuses = sorted(set(str(s) for s in R.values())) if R else []
         fp, fph = w.fingerprints(extra=[str(code), sorted((k, str(v)) for k, v in R.items()) if R else None])
         return {'violations': viol, 'sig': json.dumps(['mibdump', fmt, sorted(scn['flags']), str(code), statuses, sorted(w.fired), scn['dest'], usage]),
@@ -363,6 +387,8 @@ def gen_mibcopy(rng, tier):
     for f_ in files:
         if not f_.get('garbage') and not f_.get('broken') and rng.random() < 0.2:
             f_['tail'] = 'comment'
+        if not f_.get('garbage') and not f_.get('broken') and rng.random() < 0.1:
+            f_['head'] = rng.choice([3000, 5000, 9000, 70000])
     seen = set()
     files = [f for f in files if not (f['path'] in seen or seen.add(f['path']))]
     index_dir = None
@@ -464,6 +490,10 @@ def run_mibcopy(scn):
                         txt = mod_text(fdesc['module'], fdesc['rev'], fdesc['tag'])
                         if fdesc.get('tail') == 'comment':
                             txt = txt.rstrip('\n') + ' -- the end, no line break'
+                        if fdesc.get('head'):
+                            # the licence / change log block some vendors put in front of the module header
+                            line_ = '-- %s\n' % ('licence terms and change history of this file ' * 2)
+                            txt = line_ * (int(fdesc['head']) // len(line_) + 1) + '\n' + txt
                     contents[fdesc['path']] = txt
                     with open(p, 'w') as f:
                         f.write(txt)
